@@ -12,13 +12,21 @@ import numpy as np
 _orig_empty = np.empty
 _orig_empty_like = np.empty_like
 _installed = False
+_FLOAT_FILL = [np.nan]
+
+
+def set_float_fill(value):
+    """Choose the poison for inexact arrays (default NaN).  Executing the same call under two
+    different poisons separates 'the result legitimately contains NaN' from 'the result contains
+    uninitialised memory': only the latter changes with the poison."""
+    _FLOAT_FILL[0] = value
 
 
 def _fill(a):
     try:
         k = a.dtype.kind
         if k in 'fc':
-            a.fill(np.nan)
+            a.fill(_FLOAT_FILL[0])
         elif k in 'iu':
             a.fill(np.iinfo(a.dtype).max // 3)
         elif k == 'b':
